@@ -622,4 +622,299 @@ theorem sem_whileT {env : Env} {c : Expr} {body : Stmt} {st s1 s2 s3 : S} {v : V
   exact PostS.prefix ((by simpa using hstA : Steps env bl _ _).trans q4) rfl
     (fun k hk => by rw [q5 k hk]; exact htmA k hk) (Nat.le_refl _) hrest
 
+/-! ### `for` loops -/
+
+theorem JOk_for (J : Jumps) (e : Expr) (b : Nat) (σ : BState) : JOk (forJ J e b σ) true :=
+  fun _ => ⟨⟨_, rfl⟩, ⟨_, rfl⟩⟩
+
+theorem for_setup {env : Env} {bl : List Block} (x : Var) (e : Expr) (body : Stmt) (b : Nat) (J : Jumps) (σ : BState)
+    (hb : b < σ.len) (ho : (σ.blk b).succs = [])
+    (hx : Ext (loopFin (forS1 e b σ).len (forRB x e body b J σ)).1 bl) :
+    Ext (forRB x e body b J σ).1 bl ∧ Ext (forS7 x e b σ) bl ∧
+    (loopFin (forS1 e b σ).len (forRB x e body b J σ)).2 = some ((forS1 e b σ).len + 2) ∧
+    ((loopFin (forS1 e b σ).len (forRB x e body b J σ)).1.blk ((forS1 e b σ).len + 2)).stmts.length = 0 ∧
+    (∀ e', (forRB x e body b J σ).2 = some e' → ∀ (stc : S) (rv : Option Val),
+      step env bl ⟨e', ((forRB x e body b J σ).1.blk e').stmts.length, stc, rv⟩ =
+        some ⟨(forS1 e b σ).len, 0, stc, rv⟩) := by
+  obtain ⟨_, _, hl7, _, _, _, _, ftl, _, feb⟩ := forS7_facts x e hb ho
+  have gb : GoodS (forS7 x e b σ) ((forS1 e b σ).len + 4) (forRB x e body b J σ) :=
+    build_good body _ _ (forJ J e b σ) (forS7 x e b σ) (by omega) (by rw [feb])
+  exact loop_setup (env := env) gb (by omega) (by rw [feb]) (by omega) (by omega) ftl hx
+
+/-- one trip from the loop head of a `for` loop: to the tail when the iterator is exhausted, otherwise into
+    the body block, after `x, it = res.unwrap()` -/
+theorem for_iter {env : Env} {bl : List Block} (x : Var) (e : Expr) {b : Nat} {σ : BState} (hb : b < σ.len)
+    (ho : (σ.blk b).succs = []) (hx7 : Ext (forS7 x e b σ) bl) (stI : S) (rv : Option Val) (i m : Int)
+    (hit : stI.1 (.tmp σ.nextTmp) = .iter i m) :
+    (¬ i < m → Steps env bl ⟨(forS1 e b σ).len, 0, stI, rv⟩
+      ⟨(forS1 e b σ).len + 2, 0, (stI.1.set (.tmp (σ.nextTmp + 1)) .none, stI.2), rv⟩) ∧
+    (i < m → Steps env bl ⟨(forS1 e b σ).len, 0, stI, rv⟩
+      ⟨(forS1 e b σ).len + 4, 1,
+        (((stI.1.set (.tmp (σ.nextTmp + 1)) (.some i (i + 1) m)).set x (.int i)).set (.tmp σ.nextTmp) (.iter (i + 1) m),
+          stI.2), rv⟩) := by
+  obtain ⟨_, _, hl7, _, _, fhd, fbb, ftl, ftb, feb⟩ := forS7_facts x e hb ho
+  -- head -> body block
+  have s1 := step_goto (env := env) hx7 (b := (forS1 e b σ).len) (t := (forS1 e b σ).len + 1) (by omega)
+    (by rw [fhd]) stI rv
+  rw [fhd] at s1
+  -- res = iter_next
+  have s2 := step_stmt (env := env) hx7 (b := (forS1 e b σ).len + 1) (k := 0) (by omega)
+    (st := .assign (.tmp (σ.nextTmp + 1)) (eIterNext σ.nextTmp)) (by rw [fbb]; rfl) stI rv
+  have hnext : eval env (eIterNext σ.nextTmp) stI = (applyPrim .iternext (.iter i m), stI) := by
+    simp only [eIterNext, eval, applyUn, hit]
+  simp only [execB, hnext] at s2
+  constructor
+  · intro hlt
+    have hv : applyPrim .iternext (.iter i m) = .none := by simp [applyPrim, hlt]
+    rw [hv] at s2
+    have s3 := step_branch (env := env) hx7 (b := (forS1 e b σ).len + 1) (t := (forS1 e b σ).len + 4)
+      (f := (forS1 e b σ).len + 3) (p := eIsSome (σ.nextTmp + 1)) (by omega) (by rw [fbb]) (by rw [fbb])
+      (stI.1.set (.tmp (σ.nextTmp + 1)) .none, stI.2) rv
+    rw [fbb] at s3
+    have hs : eval env (eIsSome (σ.nextTmp + 1)) (stI.1.set (.tmp (σ.nextTmp + 1)) .none, stI.2) =
+        (.bool false, (stI.1.set (.tmp (σ.nextTmp + 1)) .none, stI.2)) := by
+      simp [eIsSome, eval, applyUn, applyPrim]
+    rw [hs] at s3
+    have s4 := step_stmt (env := env) hx7 (b := (forS1 e b σ).len + 3) (k := 0) (by omega)
+      (st := .expr (eUnwrapNothing (σ.nextTmp + 1))) (by rw [ftb]; rfl)
+      (stI.1.set (.tmp (σ.nextTmp + 1)) .none, stI.2) rv
+    have hu : (eval env (eUnwrapNothing (σ.nextTmp + 1)) (stI.1.set (.tmp (σ.nextTmp + 1)) .none, stI.2)).2 =
+        (stI.1.set (.tmp (σ.nextTmp + 1)) .none, stI.2) := by
+      simp [eUnwrapNothing, eval, applyUn]
+    simp only [execB, hu] at s4
+    have s5 := step_goto (env := env) hx7 (b := (forS1 e b σ).len + 3) (t := (forS1 e b σ).len + 2) (by omega)
+      (by rw [ftb]) (stI.1.set (.tmp (σ.nextTmp + 1)) .none, stI.2) rv
+    rw [ftb] at s5
+    exact .head s1 (.head s2 (.head (by simpa using s3) (.head s4 (.head (by simpa using s5) (.refl _)))))
+  · intro hlt
+    have hv : applyPrim .iternext (.iter i m) = .some i (i + 1) m := by simp [applyPrim, hlt]
+    rw [hv] at s2
+    have s3 := step_branch (env := env) hx7 (b := (forS1 e b σ).len + 1) (t := (forS1 e b σ).len + 4)
+      (f := (forS1 e b σ).len + 3) (p := eIsSome (σ.nextTmp + 1)) (by omega) (by rw [fbb]) (by rw [fbb])
+      (stI.1.set (.tmp (σ.nextTmp + 1)) (.some i (i + 1) m), stI.2) rv
+    rw [fbb] at s3
+    have hs : eval env (eIsSome (σ.nextTmp + 1)) (stI.1.set (.tmp (σ.nextTmp + 1)) (.some i (i + 1) m), stI.2) =
+        (.bool true, (stI.1.set (.tmp (σ.nextTmp + 1)) (.some i (i + 1) m), stI.2)) := by
+      simp [eIsSome, eval, applyUn, applyPrim]
+    rw [hs] at s3
+    have s4 := step_stmt (env := env) hx7 (b := (forS1 e b σ).len + 4) (k := 0) (by omega)
+      (st := .assign2 x (.tmp σ.nextTmp) (eUnwrap (σ.nextTmp + 1))) (by rw [feb]; rfl)
+      (stI.1.set (.tmp (σ.nextTmp + 1)) (.some i (i + 1) m), stI.2) rv
+    have hu : eval env (eUnwrap (σ.nextTmp + 1)) (stI.1.set (.tmp (σ.nextTmp + 1)) (.some i (i + 1) m), stI.2) =
+        (.some i (i + 1) m, (stI.1.set (.tmp (σ.nextTmp + 1)) (.some i (i + 1) m), stI.2)) := by
+      simp [eUnwrap, eval, applyUn, applyPrim]
+    simp only [execB, hu] at s4
+    exact .head s1 (.head s2 (.head (by simpa using s3) (.head s4 (.refl _))))
+
+theorem forS7_tmp (x : Var) (e : Expr) {b : Nat} {σ : BState} (hb : b < σ.len) (ho : (σ.blk b).succs = []) :
+    σ.nextTmp + 2 ≤ (forS7 x e b σ).nextTmp := by
+  have gA : GoodV (freshTmp (freshTmp σ).2).2 b (forA e b σ).2.1 (forA e b σ).2.2 :=
+    bld_good e .val b (freshTmp (freshTmp σ).2).2 hb ho
+  have h1 := gA.touch.tmp
+  simp only [tmp_freshTmp] at h1
+  rw [(forS7_facts x e hb ho).2.2.2.1]
+  show σ.nextTmp + 2 ≤ (addStmt _ _ (forA e b σ).2.2).nextTmp
+  simp only [tmp_addStmt]; omega
+
+theorem semA_forFrom {env : Env} {x : Var} {n m : Int} {body : Stmt} {st st' : S} {o : Outcome} :
+    SemA env (.forFrom x n m body) st o st' := by
+  intro prev b J σ bl il stI rv hu; simp [userS] at hu
+
+/-- the part of a `for` rule proof shared by all four `forFrom` rules -/
+theorem for_ctx {x : Var} {e : Expr} {body : Stmt} (hu : userS (.for x e body) = true)
+    (hs : hoistSafe (.for x e body) = true) {il : Bool} (hsc : loopScoped (.for x e body) il = true) :
+    (∃ u, x = .user u) ∧ userE e = true ∧ userS body = true ∧ hsE e = true ∧ hoistSafe body = true ∧
+    loopScoped body true = true := by
+  simp only [userS, Bool.and_eq_true] at hu
+  simp only [hoistSafe, Bool.and_eq_true] at hs
+  simp only [loopScoped] at hsc
+  refine ⟨?_, hu.1.2, hu.2, hs.1, hs.2, hsc⟩
+  cases x with
+  | user u => exact ⟨u, rfl⟩
+  | tmp k => simp [isUser] at hu
+
+theorem sem_forDone {env : Env} {x : Var} {n m : Int} {body : Stmt} {st : S} (hlt : ¬ n < m) :
+    SemS env (.forFrom x n m body) st .normal st := by
+  refine ⟨semA_forFrom, ?_⟩
+  intro x' i m' body' heq e prev b J σ bl il stI rv hu hs hsc hJ hb ho hx hag htr hit
+  cases heq
+  rw [build_for_eq] at hx ⊢
+  obtain ⟨_, hx7, hfin, hz, _⟩ := for_setup (env := env) x e body b J σ hb ho hx
+  have hst := (for_iter (env := env) x e hb ho hx7 stI rv n m hit).1 hlt
+  refine ⟨(stI.1.set (.tmp (σ.nextTmp + 1)) .none, stI.2), (set_tmp_agreeU _ _ _).trans hag, htr, ?_, _, hfin,
+    by rw [hz]; exact hst⟩
+  intro k hk
+  simp only []
+  rw [set_other _ _ (by intro h; injection h with h; omega)]
+
+theorem sem_for {env : Env} {x : Var} {e : Expr} {body : Stmt} {st s1 s2 : S} {n m : Int} {o : Outcome}
+    (hev : eval env e st = (.iter n m, s1)) (ihf : SemS env (.forFrom x n m body) s1 o s2) :
+    SemS env (.for x e body) st o s2 := by
+  refine ⟨?_, semC_vacuous (fun _ _ _ _ h => by cases h)⟩
+  intro prev b J σ bl il stI rv hu hs hsc hJ hb ho hx hag htr
+  obtain ⟨⟨u, rfl⟩, hue, _, hse, _, _⟩ := for_ctx hu hs hsc
+  have hx0 := hx
+  rw [build_for_eq] at hx ⊢
+  obtain ⟨_, hx7, _, _, _⟩ := for_setup (env := env) (.user u) e body b J σ hb ho hx
+  have gA : GoodV (freshTmp (freshTmp σ).2).2 b (forA e b σ).2.1 (forA e b σ).2.2 :=
+    bld_good e .val b (freshTmp (freshTmp σ).2).2 hb ho
+  have g1lt : (forA e b σ).2.1 < (forS1 e b σ).len := by
+    show _ < (addStmt _ _ (forA e b σ).2.2).len
+    simpa using gA.lt
+  have g1o : ((forS1 e b σ).blk (forA e b σ).2.1).succs = [] := by
+    show ((addStmt _ _ (forA e b σ).2.2).blk _).succs = []
+    rw [blk_addStmt_same _ _ _ gA.lt]; exact gA.opn
+  obtain ⟨f1, f2, f3, _, _, _, _, _, f9⟩ := forTpl_facts (.user u) σ.nextTmp (σ.nextTmp + 1) g1lt g1o
+  have tS : TouchS (forS1 e b σ) (forA e b σ).2.1 (forS7 (.user u) e b σ) :=
+    ⟨by show _ ≤ (forTpl _ _ _ _ _).len; rw [f1]; omega, by show _ ≤ (forTpl _ _ _ _ _).nextTmp; rw [f2]; exact Nat.le_refl _,
+      fun i hi hne => by show ((forTpl _ _ _ _ _).blk i).core = _; rw [f9 i hi hne],
+      by show _ <+: ((forTpl _ _ _ _ _).blk _).stmts; rw [f3]; exact List.prefix_refl _⟩
+  have hx1 : Ext (forS1 e b σ) bl := Ext.stepS tS g1o hx7
+  have hx1' : Ext (addStmt (forA e b σ).2.1 (.assign (.tmp σ.nextTmp) (.un (.prim .makeiter) (forA e b σ).1))
+      (forA e b σ).2.2) bl := hx1
+  have hxA : Ext (forA e b σ).2.2 bl := Ext.step (touch_addStmt _ _ _) gA.opn hx1'
+  obtain ⟨s2c, hst, hev2, hag2, htm2⟩ := expr_val (σ := (freshTmp (freshTmp σ).2).2) hue hse hb ho hxA hag htr hev rv
+  obtain ⟨h1, hl⟩ := step_added (env := env) (.assign (.tmp σ.nextTmp) (.un (.prim .makeiter) (forA e b σ).1))
+    gA.lt hx1' s2c rv
+  have hmk : eval env (.un (.prim .makeiter) (forA e b σ).1) s2c = (.iter n m, (s2c.1, s1.2)) := by
+    have hev2' : eval env (forA e b σ).1 s2c = (.iter n m, (s2c.1, s1.2)) := hev2
+    simp only [eval, hev2', applyUn, applyPrim]
+  simp only [execB, hmk] at h1
+  -- the jump to the loop head
+  have f3' : (forS7 (.user u) e b σ).blk (forA e b σ).2.1 =
+      { (forS1 e b σ).blk (forA e b σ).2.1 with succs := [(forS1 e b σ).len] } := f3
+  have h2 := step_goto (env := env) hx7 (b := (forA e b σ).2.1) (t := (forS1 e b σ).len)
+    (by show _ < (forTpl _ _ _ _ _).len; rw [f1]; omega) (by rw [f3']) (s2c.1.set (.tmp σ.nextTmp) (.iter n m), s1.2) rv
+  rw [f3'] at h2
+  have hl' : ((forS1 e b σ).blk (forA e b σ).2.1).stmts.length =
+      ((forA e b σ).2.2.blk (forA e b σ).2.1).stmts.length + 1 := hl
+  simp only [hl'] at h2
+  have hC := ihf.2 (.user u) n m body rfl e prev b J σ bl il (s2c.1.set (.tmp σ.nextTmp) (.iter n m), s1.2) rv
+    hu hs hsc hJ hb ho hx0 ((set_tmp_agreeU _ _ _).trans hag2) rfl (by simp)
+  rw [build_for_eq] at hC
+  refine ⟨PostS.prefix (hst.trans (.head h1 (.head h2 (.refl _)))) rfl ?_ (Nat.le_refl _) hC, fun _ _ h => by cases h⟩
+  intro k hk
+  simp only []
+  rw [set_other _ _ (by intro h; injection h with h; omega)]
+  exact htm2 k (by simp only [tmp_freshTmp]; omega)
+
+/-- after `x, it = res.unwrap()` the CFG state agrees with Python's state at the start of the body -/
+theorem for_body_agree {stI : Store} {s : Store} (hag : agreeU stI s) (u : String) (i m : Int) (it rs : Nat) :
+    agreeU (((stI.set (.tmp rs) (.some i (i + 1) m)).set (.user u) (.int i)).set (.tmp it) (.iter (i + 1) m))
+      (s.set (.user u) (.int i)) :=
+  (set_tmp_agreeU _ _ _).trans (agreeU_set ((set_tmp_agreeU _ _ _).trans hag) _ _)
+
+theorem for_body_tmps (stI : Store) (u : String) (i m : Int) (it : Nat) (k : Nat) (hk : k < it) :
+    (((stI.set (.tmp (it + 1)) (.some i (i + 1) m)).set (.user u) (.int i)).set (.tmp it) (.iter (i + 1) m)) (.tmp k) =
+      stI (.tmp k) := by
+  rw [set_other _ _ (by intro h; injection h with h; omega), set_other _ _ (tmp_ne_user k u),
+    set_other _ _ (by intro h; injection h with h; omega)]
+
+theorem sem_forB {env : Env} {x : Var} {n m : Int} {body : Stmt} {st s1 : S} (hlt : n < m)
+    (ihb : SemS env body (st.1.set x (.int n), st.2) .brk s1) : SemS env (.forFrom x n m body) st .normal s1 := by
+  refine ⟨semA_forFrom, ?_⟩
+  intro x' i m' body' heq e prev b J σ bl il stI rv hu hs hsc hJ hb ho hx hag htr hit
+  cases heq
+  obtain ⟨⟨u, rfl⟩, _, hub, _, hsb, hscb⟩ := for_ctx hu hs hsc
+  rw [build_for_eq] at hx ⊢
+  obtain ⟨hxb, hx7, hfin, hz, _⟩ := for_setup (env := env) (.user u) e body b J σ hb ho hx
+  obtain ⟨_, _, hl7, _, _, _, _, _, _, feb⟩ := forS7_facts (.user u) e hb ho
+  have hst := (for_iter (env := env) (.user u) e hb ho hx7 stI rv n m hit).2 hlt
+  obtain ⟨stc, q1, q2, q5, t, q3, q4⟩ := (ihb.1 _ _ (forJ J e b σ) (forS7 (.user u) e b σ) bl true
+    (((stI.1.set (.tmp (σ.nextTmp + 1)) (.some n (n + 1) m)).set (.user u) (.int n)).set (.tmp σ.nextTmp) (.iter (n + 1) m), stI.2) rv hub hsb hscb
+    (JOk_for J e b σ) (by omega) (by rw [feb]) hxb (for_body_agree hag u n m _ _) htr).1
+  rw [feb] at q4
+  cases q3
+  have h7 := forS7_tmp (.user u) e hb ho
+  refine ⟨stc, q1, q2, ?_, _, hfin, by rw [hz]; exact hst.trans q4⟩
+  intro k hk
+  rw [q5 k (by omega)]
+  exact for_body_tmps stI.1 u n m σ.nextTmp k hk
+
+theorem sem_forR {env : Env} {x : Var} {n m : Int} {body : Stmt} {st s1 : S} {r : Val} (hlt : n < m)
+    (ihb : SemS env body (st.1.set x (.int n), st.2) (.ret r) s1) :
+    SemS env (.forFrom x n m body) st (.ret r) s1 := by
+  refine ⟨semA_forFrom, ?_⟩
+  intro x' i m' body' heq e prev b J σ bl il stI rv hu hs hsc hJ hb ho hx hag htr hit
+  cases heq
+  obtain ⟨⟨u, rfl⟩, _, hub, _, hsb, hscb⟩ := for_ctx hu hs hsc
+  rw [build_for_eq] at hx ⊢
+  obtain ⟨hxb, hx7, hfin, hz, _⟩ := for_setup (env := env) (.user u) e body b J σ hb ho hx
+  obtain ⟨_, _, hl7, _, _, _, _, _, _, feb⟩ := forS7_facts (.user u) e hb ho
+  have hst := (for_iter (env := env) (.user u) e hb ho hx7 stI rv n m hit).2 hlt
+  obtain ⟨stc, q1, q2, q5, q4⟩ := (ihb.1 _ _ (forJ J e b σ) (forS7 (.user u) e b σ) bl true
+    (((stI.1.set (.tmp (σ.nextTmp + 1)) (.some n (n + 1) m)).set (.user u) (.int n)).set (.tmp σ.nextTmp) (.iter (n + 1) m), stI.2) rv hub hsb hscb
+    (JOk_for J e b σ) (by omega) (by rw [feb]) hxb (for_body_agree hag u n m _ _) htr).1
+  rw [feb] at q4
+  have h7 := forS7_tmp (.user u) e hb ho
+  refine ⟨stc, q1, q2, ?_, hst.trans q4⟩
+  intro k hk
+  rw [q5 k (by omega)]
+  exact for_body_tmps stI.1 u n m σ.nextTmp k hk
+
+theorem sem_forStep {env : Env} {x : Var} {n m : Int} {body : Stmt} {st s1 s2 : S} {o o' : Outcome} (hlt : n < m)
+    (ihb : SemS env body (st.1.set x (.int n), st.2) o s1) (ho' : o = .normal ∨ o = .cont)
+    (ihf : SemS env (.forFrom x (n + 1) m body) s1 o' s2) : SemS env (.forFrom x n m body) st o' s2 := by
+  refine ⟨semA_forFrom, ?_⟩
+  intro x' i m' body' heq e prev b J σ bl il stI rv hu hs hsc hJ hb ho hx hag htr hit
+  cases heq
+  obtain ⟨⟨u, rfl⟩, _, hub, _, hsb, hscb⟩ := for_ctx hu hs hsc
+  have hx0 := hx
+  rw [build_for_eq] at hx
+  obtain ⟨hxb, hx7, hfin, hz, hback⟩ := for_setup (env := env) (.user u) e body b J σ hb ho hx
+  obtain ⟨_, _, hl7, _, _, _, _, _, _, feb⟩ := forS7_facts (.user u) e hb ho
+  have hst := (for_iter (env := env) (.user u) e hb ho hx7 stI rv n m hit).2 hlt
+  have h7 := forS7_tmp (.user u) e hb ho
+  have hbody := (ihb.1 _ _ (forJ J e b σ) (forS7 (.user u) e b σ) bl true
+    (((stI.1.set (.tmp (σ.nextTmp + 1)) (.some n (n + 1) m)).set (.user u) (.int n)).set (.tmp σ.nextTmp) (.iter (n + 1) m), stI.2) rv hub hsb hscb
+    (JOk_for J e b σ) (by omega) (by rw [feb]) hxb (for_body_agree hag u n m _ _) htr).1
+  rw [feb] at hbody
+  have hhead : ∃ stc : S, agreeU stc.1 s1.1 ∧ stc.2 = s1.2 ∧
+      (∀ k, k < σ.nextTmp + 2 → stc.1 (.tmp k) =
+        (((stI.1.set (.tmp (σ.nextTmp + 1)) (.some n (n + 1) m)).set (.user u) (.int n)).set (.tmp σ.nextTmp)
+          (.iter (n + 1) m)) (.tmp k)) ∧
+      Steps env bl ⟨(forS1 e b σ).len + 4, 1,
+        (((stI.1.set (.tmp (σ.nextTmp + 1)) (.some n (n + 1) m)).set (.user u) (.int n)).set (.tmp σ.nextTmp)
+          (.iter (n + 1) m), stI.2), rv⟩ ⟨(forS1 e b σ).len, 0, stc, rv⟩ := by
+    rcases ho' with rfl | rfl
+    · obtain ⟨stc, q1, q2, q5, e', q3, q4⟩ := hbody
+      exact ⟨stc, q1, q2, fun k hk => q5 k (by omega), q4.trans (Steps.single (hback e' q3 stc rv))⟩
+    · obtain ⟨stc, q1, q2, q5, t, q3, q4⟩ := hbody
+      cases q3
+      exact ⟨stc, q1, q2, fun k hk => q5 k (by omega), q4⟩
+  obtain ⟨stc, q1, q2, q5, q4⟩ := hhead
+  have hit' : stc.1 (.tmp σ.nextTmp) = .iter (n + 1) m := by rw [q5 σ.nextTmp (by omega)]; simp
+  have hrest := ihf.2 (.user u) (n + 1) m body rfl e prev b J σ bl il stc rv hu hs hsc hJ hb ho hx0 q1 q2 hit'
+  refine PostS.prefix (hst.trans q4) rfl ?_ (Nat.le_refl _) hrest
+  intro k hk
+  rw [q5 k (by omega)]
+  exact for_body_tmps stI.1 u n m σ.nextTmp k hk
+
+/-- **`build` simulates the big-step semantics** (hoist-safe programs) -/
+theorem sem_stmt {env : Env} {s : Stmt} {st st' : S} {o : Outcome} (h : Exec env s st o st') :
+    SemS env s st o st' := by
+  induction h with
+  | nil => exact sem_nil env _
+  | consN _ _ ih1 ih2 => exact sem_consN ih1 ih2
+  | consJ _ hne ih => exact sem_consJ ih hne
+  | assign hev => exact sem_assign hev
+  | aug hev => exact sem_aug hev
+  | expr hev => exact sem_expr hev
+  | pass => exact sem_pass env _
+  | brk => exact sem_brk env _
+  | cont => exact sem_cont env _
+  | ret hev => exact sem_ret hev
+  | ret0 => exact sem_ret0 env _
+  | iteT hev hv _ ih => exact sem_ite_aux hev (by rw [hv]; exact ih)
+  | iteF hev hv _ ih => exact sem_ite_aux hev (by rw [hv]; exact ih)
+  | whileF hev hv => exact sem_whileF hev hv
+  | whileT hev hv _ ho _ ihb ihw => exact sem_whileT hev hv ihb ho ihw
+  | whileB hev hv _ ihb => exact sem_whileB hev hv ihb
+  | whileR hev hv _ ihb => exact sem_whileR hev hv ihb
+  | «for» hev _ ih => exact sem_for hev ih
+  | forDone hlt => exact sem_forDone hlt
+  | forStep hlt _ ho _ ihb ihf => exact sem_forStep hlt ihb ho ihf
+  | forB hlt _ ihb => exact sem_forB hlt ihb
+  | forR hlt _ ihb => exact sem_forR hlt ihb
+
 end GuppyVerif.Builder
